@@ -8,7 +8,7 @@ from spec import oracle as orc
 from . import domain as D
 from .common import Recorder, time_limit, Timeout
 
-SCHEMAS = ["basic", "list", "strict", "table", "marksx"]
+SCHEMAS = ["basic", "list", "strict", "table", "marksx", "note"]
 
 
 def balanced(toks):
